@@ -76,6 +76,8 @@ def run_c10(prop, tier, seed, replay=None):
             sc["id"] = i
     if not replay:
         # real Readers as consumers: their add/withdraw sequences, and what is left when they close
+        # two Readers on the same piece, with an eviction in between: a withdrawal must be of what was registered
+        scen += [{"kind": "tworeaders", "steps": [], "id": len(scen) + k} for k in range(3 if tier == "quick" else 40)]
         for k, (off, ln) in enumerate(READER_RANGES):
             r = run_tlc("MCReader", "Reader_sim%d.cfg" % (k + 1), workers=1, simulate=8 if tier == "quick" else 100, depth=17, seed=seed + k, timeout=1800)
             require_ok(r, "Reader simulation %d" % k)
